@@ -14,8 +14,8 @@ PROP = dict(
          "computes `1000 + match s { pat_k -> { println(\"x=\" .. x)…; k } }` so the arm taken, every bound variable and a leaked "
          "stack slot are observed; plus 150 / 3000 `let` and `for` destructuring programs; compared with the Lean model of the "
          "emitted code run on the model VM; spec oracle: Rust reference (first matching arm, bindings of the first matching "
-         "alternative); arms with several or-patterns side by side are in the main stream (D27 repaired; its input is replayed as a "
-         "regression probe); the shapes of D31, D46, D47 are in the main stream as long as the implementation passes their probe program; "
+         "alternative); the shapes of the repaired defects D27, D31, D46, D47 are unconditionally in the main stream and their original inputs (incl. the "
+         "compile hang, in a child process with a time limit, re-run alone before a timeout counts) are hard regression checks: a wrong output is a spec failure; "
          "non-trivial = the arm taken is not arm 0, or something is bound, or an or-pattern occurs",
     nontrivial=lambda req, imp: not imp.startswith("arm=0 leak=0") or "=" in imp.split("leak=0", 1)[-1] or " or " in req,
     trusted_base=COMMON_TB + [
